@@ -259,7 +259,7 @@ pub fn check_case(ctx: &mut Ctx, case: &Case, cfg: &Cfg, props: &[String], want_
             match tin.iter().find(|t| t.content_start() == start) {
                 None => res.viols.push(Viol { prop: "C13", clause: "grid_boundary", detail: format!("no token starts at byte {start}") }),
                 Some(t) => {
-                    let kind_ok = if want == "KEYWORD" { t.kind.starts_with("Keyword(") } else { t.kind == want };
+                    let kind_ok = if want == "KEYWORD" { t.kind.starts_with("Keyword(") } else if want.is_empty() || want.ends_with('(') { t.kind.starts_with(want) } else { t.kind == want };
                     if t.end() != end || !kind_ok {
                         res.viols.push(Viol { prop: "C13", clause: "grid_boundary", detail: format!("word [{start},{end}) {want}: scanner gives [{},{}) {}", t.content_start(), t.end(), t.kind) });
                     }
